@@ -191,7 +191,9 @@ class Renderer(object):
         if f.get("tabs_cr") and r.random() < 0.4:
             s = r.choice([b"\t", b"  ", b" \t ", b"\r ", b" \r"])
         if f.get("c_comments") and r.random() < 0.3:
-            s += r.choice([b"/* c */", b"/**/", b"/* * / ** */", b"/* \"q\" { ( , ; */"]) + b" "
+            if r.random() < 0.3:
+                s = b""        # glued to the token before it
+            s += r.choice([b"/* c */", b"/**/", b"/* * / ** */", b"/* \"q\" { ( , ; */"]) + r.choice([b" ", b" ", b""])
         return s
 
     def term(self, last, nested):
@@ -210,7 +212,8 @@ class Renderer(object):
             opts = [b"\n"] if not f.get("one_line") else [b";"]
         t = r.choice(opts)
         if f.get("cpp_comments") and t.endswith(b"\n") and r.random() < 0.4:
-            t = t[:-1] + b" // note ; } \" (\n"
+            # (now and then glued to the token before it: a comment needs no blank in front of it)
+            t = t[:-1] + (b" " if r.random() < 0.65 else b"") + b"// note ; } \" (\n"
         if f.get("tabs_cr") and t.endswith(b"\n") and r.random() < 0.3:
             t += r.choice([b"\n", b"\r\n", b" \n", b"\t\n"])
         return t
